@@ -213,7 +213,26 @@ Definition sdone (s : state) : bool := serr s || (is_nil (stodo s) && is_nil (sp
 
 (* ------------------------------------------------------------------ world, evaluators *)
 
-Record world := mkW { wst : nat -> tstate; wcl : nat -> Z (* Task.consecutiveLost *) }.
+Record world := mkW { wst : nat -> tstate;
+                      wcl : nat -> Z     (* Task.consecutiveLost *);
+                      wlu : nat -> bool  (* Task.lossUncounted *) }.
+
+(* Two versions of the loss accounting of Eval are modelled, selected by [clo]
+   ("counts each loss once", read off the Go AST as eval_counts_loss_once):
+     clo = false  the former code: only the waiter goroutine of the evaluation that
+                  handed the task out maintains consecutiveLost;
+     clo = true   (0540c52) the hand-out sets lossUncounted; Task.countLost counts
+                  the loss of that run once, in the runner's waiter or in the main
+                  loop of whichever evaluation is about to resubmit the task. *)
+
+(* Task.countLost, eval.go (enableMaxConsecutiveLost = true) *)
+Definition count_lost (w : world) (t : nat) : world * bool :=
+  if wlu w t then
+    let c := (wcl w t + 1)%Z in
+    if (c >=? max_consecutive_lost)%Z
+    then (mkW (upd (wst w) t TErr) (upd (wcl w) t c) (upd (wlu w) t false), true)
+    else (mkW (wst w) (upd (wcl w) t c) (upd (wlu w) t false), false)
+  else (w, false).
 
 Record evaluator := mkE {
   eroots : list nat;
@@ -228,24 +247,27 @@ Definition new_eval (roots : list nat) : evaluator := mkE roots false new_state 
 Definition set_est (ev : evaluator) (s : state) : evaluator :=
   mkE (eroots ev) (estarted ev) s (ewait ev) (edonec ev) (eres ev).
 
-(* one iteration of eval.go:110-174 (up to the `go` statements) *)
-Definition dispatch_one (acc : world * list (nat * bool) * list nat) (u : nat)
+(* one iteration of the dispatch loop of Eval (up to the `go` statements) *)
+Definition dispatch_one (clo : bool) (acc : world * list (nat * bool) * list nat) (u : nat)
   : world * list (nat * bool) * list nat :=
   let '(w, ws, runs) := acc in
-  let st1 := if st_eqb (wst w u) TLost then TInit else wst w u in      (* :112-115 *)
-  if st_eqb st1 TInit                                                   (* runner, :119 *)
-  then (mkW (upd (wst w) u TWaiting) (wcl w), ws ++ [(u, true)], runs ++ [u])
-  else (w, ws ++ [(u, false)], runs).
+  (* clo: `if task.state == TaskLost { task.countLost() }` *)
+  let w0 := if clo && st_eqb (wst w u) TLost then fst (count_lost w u) else w in
+  let st1 := if st_eqb (wst w0 u) TLost then TInit else wst w0 u in   (* resubmitting lost task *)
+  if st_eqb st1 TInit                                                  (* runner *)
+  then (mkW (upd (wst w0) u TWaiting) (wcl w0) (if clo then upd (wlu w0) u true else wlu w0),
+        ws ++ [(u, true)], runs ++ [u])
+  else (w0, ws ++ [(u, false)], runs).
 
-Definition dispatch (ev : evaluator) (w : world) : evaluator * world * list nat :=
+Definition dispatch (clo : bool) (ev : evaluator) (w : world) : evaluator * world * list nat :=
   let '(ts, s1) := runnable (est ev) in
-  let '(w1, ws, runs) := fold_left dispatch_one ts (w, ewait ev, []) in
+  let '(w1, ws, runs) := fold_left (dispatch_one clo) ts (w, ewait ev, []) in
   (mkE (eroots ev) (estarted ev) s1 ws (edonec ev) (eres ev), w1, runs).
 
 (* from the top of the outer `for` (eval.go:89) until Eval blocks in the select
    or returns.  The loop body runs at most three times (the second Enqueue of the
    roots is memoised); k is explicit fuel. *)
-Fixpoint main_top (eda : bool) (g : graph) (k : nat) (ev : evaluator) (w : world) (acc : list nat)
+Fixpoint main_top (clo eda : bool) (g : graph) (k : nat) (ev : evaluator) (w : world) (acc : list nat)
   : evaluator * world * list nat :=
   match k with
   | O => (set_est ev (set_oof (est ev)), w, acc)
@@ -254,32 +276,34 @@ Fixpoint main_top (eda : bool) (g : graph) (k : nat) (ev : evaluator) (w : world
       if sdone s1 then                                         (* :93 return state.Err(); defer cancel() *)
         (mkE (eroots ev) true s1 [] [] (Some (serr s1)), w, acc)
       else if is_nil (stodo s1) then (set_est ev s1, w, acc)   (* :96 blocks in select *)
-      else let '(ev1, w1, runs) := dispatch (set_est ev s1) w in
-           main_top eda g k' ev1 w1 (acc ++ runs)
+      else let '(ev1, w1, runs) := dispatch clo (set_est ev s1) w in
+           main_top clo eda g k' ev1 w1 (acc ++ runs)
   end.
 Definition main_fuel : nat := 4.
 
 (* after a Return: the condition of the inner loop (eval.go:96), then on *)
-Definition main_cont (eda : bool) (g : graph) (ev : evaluator) (w : world)
+Definition main_cont (clo eda : bool) (g : graph) (ev : evaluator) (w : world)
   : evaluator * world * list nat :=
   if negb (sdone (est ev)) && is_nil (stodo (est ev)) then (ev, w, [])
-  else let '(ev1, w1, runs) := dispatch ev w in main_top eda g main_fuel ev1 w1 runs.
+  else let '(ev1, w1, runs) := dispatch clo ev w in main_top clo eda g main_fuel ev1 w1 runs.
 
 (* Eval called (eval.go:80-88): a fresh state, then the loop *)
-Definition step_start (eda : bool) (g : graph) (ev : evaluator) (w : world)
+Definition step_start (clo eda : bool) (g : graph) (ev : evaluator) (w : world)
   : evaluator * world * list nat :=
   if estarted ev then (ev, w, [])
-  else main_top eda g main_fuel (mkE (eroots ev) true new_state [] [] None) w [].
+  else main_top clo eda g main_fuel (mkE (eroots ev) true new_state [] [] None) w [].
 
-(* eval.go:138-159, enableMaxConsecutiveLost = true *)
-Definition bookkeep (w : world) (t : nat) : world :=
+(* the runner's bookkeeping in the waiter goroutine, enableMaxConsecutiveLost = true *)
+Definition bookkeep (clo : bool) (w : world) (t : nat) : world :=
   match wst w t with
-  | TOk => mkW (wst w) (upd (wcl w) t 0%Z)
+  | TOk => mkW (wst w) (upd (wcl w) t 0%Z) (if clo then upd (wlu w) t false else wlu w)
   | TLost =>
-      let c := (wcl w t + 1)%Z in
-      if (c >=? max_consecutive_lost)%Z
-      then mkW (upd (wst w) t TErr) (upd (wcl w) t c)
-      else mkW (wst w) (upd (wcl w) t c)
+      if clo then fst (count_lost w t)
+      else
+        let c := (wcl w t + 1)%Z in
+        if (c >=? max_consecutive_lost)%Z
+        then mkW (upd (wst w) t TErr) (upd (wcl w) t c) (wlu w)
+        else mkW (wst w) (upd (wcl w) t c) (wlu w)
   | _ => w
   end.
 
@@ -289,22 +313,22 @@ Fixpoint find_waiter (t : nat) (ws : list (nat * bool)) : option bool :=
   | (u, r) :: rest => if Nat.eqb t u then Some r else find_waiter t rest
   end.
 
-Definition step_wait (ev : evaluator) (w : world) (t : nat) : evaluator * world :=
+Definition step_wait (clo : bool) (ev : evaluator) (w : world) (t : nat) : evaluator * world :=
   match eres ev, find_waiter t (ewait ev) with
   | None, Some r =>
       if ge_ok (wst w t)
       then (mkE (eroots ev) (estarted ev) (est ev)
                 (filter (fun p => negb (Nat.eqb t (fst p))) (ewait ev)) (edonec ev ++ [t]) (eres ev),
-            if r then bookkeep w t else w)
+            if r then bookkeep clo w t else w)
       else (ev, w)
   | _, _ => (ev, w)
   end.
 
-Definition step_main (eda : bool) (g : graph) (ev : evaluator) (w : world)
+Definition step_main (clo eda : bool) (g : graph) (ev : evaluator) (w : world)
   : evaluator * world * list nat :=
   match eres ev, edonec ev with
   | None, t :: rest =>
-      main_cont eda g
+      main_cont clo eda g
         (mkE (eroots ev) (estarted ev) (ret eda g (wst w) (est ev) t) (ewait ev) rest (eres ev)) w
   | _, _ => (ev, w, [])
   end.
@@ -329,35 +353,35 @@ Fixpoint set_nth {A} (l : list A) (i : nat) (x : A) : list A :=
   end.
 
 (* one atomic step; the emitted Run calls are tagged with the evaluator *)
-Definition step (eda : bool) (g : graph) (sy : sys) (l : label) : sys * list (nat * nat) :=
+Definition step_v (clo eda : bool) (g : graph) (sy : sys) (l : label) : sys * list (nat * nat) :=
   match l with
-  | LSet t s => (mkSys (mkW (upd (wst (sw sy)) t s) (wcl (sw sy))) (sevs sy), [])
+  | LSet t s => (mkSys (mkW (upd (wst (sw sy)) t s) (wcl (sw sy)) (wlu (sw sy))) (sevs sy), [])
   | LStart e =>
       if Nat.ltb e (length (sevs sy)) then
-        let '(ev, w, runs) := step_start eda g (get_ev sy e) (sw sy) in
+        let '(ev, w, runs) := step_start clo eda g (get_ev sy e) (sw sy) in
         (mkSys w (set_nth (sevs sy) e ev), map (pair e) runs)
       else (sy, [])
   | LWait e t =>
       if Nat.ltb e (length (sevs sy)) then
-        let '(ev, w) := step_wait (get_ev sy e) (sw sy) t in
+        let '(ev, w) := step_wait clo (get_ev sy e) (sw sy) t in
         (mkSys w (set_nth (sevs sy) e ev), [])
       else (sy, [])
   | LMain e =>
       if Nat.ltb e (length (sevs sy)) then
-        let '(ev, w, runs) := step_main eda g (get_ev sy e) (sw sy) in
+        let '(ev, w, runs) := step_main clo eda g (get_ev sy e) (sw sy) in
         (mkSys w (set_nth (sevs sy) e ev), map (pair e) runs)
       else (sy, [])
   end.
 
 (* an arbitrary interleaving; the trace records, per step, the world before the
    step and what was handed to the executor *)
-Fixpoint exec (eda : bool) (g : graph) (sy : sys) (ls : list label)
+Fixpoint exec_v (clo eda : bool) (g : graph) (sy : sys) (ls : list label)
   : sys * list (label * world * list (nat * nat)) :=
   match ls with
   | [] => (sy, [])
   | l :: r =>
-      let '(sy1, runs) := step eda g sy l in
-      let '(sy2, tr) := exec eda g sy1 r in
+      let '(sy1, runs) := step_v clo eda g sy l in
+      let '(sy2, tr) := exec_v clo eda g sy1 r in
       (sy2, (l, sw sy, runs) :: tr)
   end.
 
@@ -376,7 +400,7 @@ Definition sched_main (sy : sys) : list label :=
 Definition runs_of (tr : list (label * world * list (nat * nat))) : list (nat * nat) :=
   flat_map (fun x => snd x) tr.
 
-Fixpoint quiesce (eda : bool) (g : graph) (k : nat) (sy : sys) (acc : list (nat * nat))
+Fixpoint quiesce_v (clo eda : bool) (g : graph) (k : nat) (sy : sys) (acc : list (nat * nat))
   : sys * list (nat * nat) * bool :=
   match k with
   | O => (sy, acc, false)
@@ -384,27 +408,41 @@ Fixpoint quiesce (eda : bool) (g : graph) (k : nat) (sy : sys) (acc : list (nat 
       match sched_wait sy, sched_main sy with
       | [], [] => (sy, acc, true)
       | lw, _ =>
-          let '(sy1, tr1) := exec eda g sy lw in
-          let '(sy2, tr2) := exec eda g sy1 (sched_main sy1) in
-          quiesce eda g k' sy2 (acc ++ runs_of tr1 ++ runs_of tr2)
+          let '(sy1, tr1) := exec_v clo eda g sy lw in
+          let '(sy2, tr2) := exec_v clo eda g sy1 (sched_main sy1) in
+          quiesce_v clo eda g k' sy2 (acc ++ runs_of tr1 ++ runs_of tr2)
       end
   end.
 Definition quiesce_fuel (g : graph) : nat := 2 * length g + 4.
 
 (* one lock-step operation of the driver: inject, then run to quiescence *)
-Definition lock_step (eda : bool) (g : graph) (sy : sys) (l : label) : sys * list (nat * nat) * bool :=
-  let '(sy1, runs) := step eda g sy l in
-  quiesce eda g (quiesce_fuel g) sy1 runs.
+Definition lock_step_v (clo eda : bool) (g : graph) (sy : sys) (l : label) : sys * list (nat * nat) * bool :=
+  let '(sy1, runs) := step_v clo eda g sy l in
+  quiesce_v clo eda g (quiesce_fuel g) sy1 runs.
 
-Fixpoint run_lock (eda : bool) (g : graph) (sy : sys) (ls : list label)
+Fixpoint run_lock_v (clo eda : bool) (g : graph) (sy : sys) (ls : list label)
   : list (sys * list (nat * nat) * bool) :=
   match ls with
   | [] => []
-  | l :: r => let '(sy1, runs, ok) := lock_step eda g sy l in (sy1, runs, ok) :: run_lock eda g sy1 r
+  | l :: r => let '(sy1, runs, ok) := lock_step_v clo eda g sy l in (sy1, runs, ok) :: run_lock_v clo eda g sy1 r
   end.
 
 Definition init_sys (st0 : nat -> tstate) (rootss : list (list nat)) : sys :=
-  mkSys (mkW st0 (fun _ => 0%Z)) (map new_eval rootss).
+  mkSys (mkW st0 (fun _ => 0%Z) (fun _ => false)) (map new_eval rootss).
+
+(* ---- the versions of Eval that have existed.  [eda] (TaskErr counts as done in
+        Enqueue) was repaired in 80f5927, the loss accounting in 0540c52, in that
+        order: the Enqueue switch with TaskErr under TaskOk only ever ran with the
+        former accounting.  [ver eda] is the accounting that goes with [eda]:
+        eda = true (the original code) -> the former one; eda = false -> whatever
+        the Go source has now (eval_counts_loss_once). ---- *)
+Definition ver (eda : bool) : bool := eval_counts_loss_once && negb eda.
+
+Definition step (eda : bool) (g : graph) := step_v (ver eda) eda g.
+Definition exec (eda : bool) (g : graph) := exec_v (ver eda) eda g.
+Definition quiesce (eda : bool) (g : graph) := quiesce_v (ver eda) eda g.
+Definition lock_step (eda : bool) (g : graph) := lock_step_v (ver eda) eda g.
+Definition run_lock (eda : bool) (g : graph) := run_lock_v (ver eda) eda g.
 
 (* ------------------------------------------------------------------ synchronous driving of [state] *)
 
